@@ -166,6 +166,10 @@ def gen_stream(rng, n_reads, n_chroms=3):
 # in-process: loader and graph input
 
 class FakeUnpickler:
+    # /repo fix f48e223: ReadAssignmentLoader.get_next reads `unpickler.chr_record` (reference window widening); the stub
+    # has no reference, which makes that step a no-op
+    chr_record = None
+
     def __init__(self, items):
         self.items = list(items)      # ("gene", obj) / ("read", obj)
         self.i = 0
